@@ -134,7 +134,7 @@ Write(runs) ==
 
 \* any rejected call: index at or before one already written, or a malformed block description
 BadKinds == {"past", "first-offset-nonzero", "offsets-not-increasing", "indices-not-increasing",
-             "blocks-overlap", "offset-past-end", "length-mismatch", "negative-index"}
+             "blocks-overlap", "offset-past-end", "length-mismatch", "negative-index", "late-defect-in-many-blocks"}
 BadWrite(kind) ==
   /\ s.open /\ kind \in BadKinds
   /\ last' = [a |-> "BadWrite", kind |-> kind]
